@@ -1908,7 +1908,8 @@ class FDE:
                     return self.stub(t.name, None, *self._both_views(t, args, kwargs)) if self.stub is not None else None
                 self.effects.append(('call', t.name, args[0] if args else None, tuple(args[1:]), tuple(sorted(kwargs.items()))))
                 if self.stub is not None:
-                    return self.stub(t.name, args[0] if args else None, args[1:], kwargs)
+                    a2_, k2_ = self._both_views(t, args, kwargs)       # Class.method(obj, name=..., value=...): both views, receiver first
+                    return self.stub(t.name, a2_[0] if a2_ else None, a2_[1:], k2_)
                 return args[0] if args else None
             if isinstance(target, tuple) and target and target[0] == 'dictmethod':
                 _, d, m = target
